@@ -262,6 +262,32 @@ def c09_extra(tier, seed, ctx):
         rc, _ = eng.close()
         if any("panicked" in l for _, l in eng.errlines()):
             violations.append(viol("C09", "panic-on-stderr", f"fen=[{fen}] stderr={[l for _, l in eng.errlines() if 'panicked' in l][:2]}"))
+    # the position the go is answered for is the one the LAST accepted position command described, whatever came before it
+    START = SEEDS[0]
+    other = "rnbqkbnr/pppp1ppp/8/4p3/3QP3/8/PPP2PPP/RNB1KBNR w KQkq - 0 3"
+    switching = [
+        [("position startpos moves e2e4 e7e5", None), (f"position fen {other}", None), ("position startpos moves e2e4 e7e5 g1f3", (START, "e2e4 e7e5 g1f3"))],
+        [("position startpos moves e2e4 e7e5", None), ("position startpos moves e2e4 e7e5 zz", None), (f"position fen {START.replace(' 0 1', ' 3 9')} moves e2e4 e7e5 d2d4", (START, "e2e4 e7e5 d2d4"))],
+        [(f"position fen {other}", (other, "")), ("position startpos", (START, "")), (f"position fen {other} moves d4e5", (other, "d4e5")), ("position startpos moves d2d4", (START, "d2d4"))],
+        [("position startpos moves g1f3 g8f6 f3g1 f6g8 g1f3 g8f6 f3g1 f6g8", (START, "g1f3 g8f6 f3g1 f6g8 g1f3 g8f6 f3g1 f6g8")), ("ucinewgame", None), ("position startpos moves g1f3", (START, "g1f3"))],
+    ]
+    for script in switching:
+        eng = Engine(ctx["engine"])
+        for cmd, expect in script:
+            eng.send(cmd)
+            if expect is None:
+                continue
+            idx = len(eng.lines())
+            eng.send("go depth 2")
+            i = eng.wait_for(lambda l: l.startswith("bestmove"), 10.0 * load_factor(), idx)
+            evals += 1
+            distinct.add(("switch", cmd))
+            if i is None:
+                violations.append(viol("C09", "no-bestmove", f"after [{cmd}] in a position-switching session"))
+                break
+            queries.append((expect[0], expect[1], (eng.lines()[i][1].split() + [""])[1]))
+        eng.send("quit")
+        eng.close()
     for l in legal_queries(ctx["driver"], queries):
         violations.append(viol("C09", "bestmove-not-legal", l))
     return {"violations": violations, "evaluations": evals, "distinct_nontrivial": len(distinct), "samples": samples,
@@ -493,7 +519,8 @@ def c10_extra(tier, seed, ctx):
 
 VOCAB = ["uci", "isready", "ucinewgame", "stop", "setoption", "name", "value", "Hash", "position", "startpos", "moves", "go", "depth", "nodes",
          "movetime", "wtime", "btime", "winc", "binc", "infinite", "searchmoves", "ponder", "movestogo", "mate", "e2e4", "e7e5"]
-JUNK = ["", "-1", "0", "256", "18446744073709551616", "340282366920938463463374607431768211456", "+5", "1e3", "abc", "E2E4", "e2e9", "ä", "\t", "  "]
+JUNK = ["", "-1", "0", "256", "18446744073709551616", "340282366920938463463374607431768211456", "+5", "1e3", "abc", "E2E4", "e2e9", "ä", "\t", "  ",
+        "x" + "é" * 30, "xy" + "€" * 25 + "ß" * 9, "abc" + "𝄞é" * 17, "q" * 200]
 
 
 def junk_line(rng):
@@ -519,6 +546,7 @@ def c15_extra(tier, seed, ctx):
     for sidx in range(sessions):
         lines = [junk_line(rng) for _ in range(rng.randrange(3, 25))]
         # the lines that used to kill the engine are always in the mix
+        lines += ["position startpos moves e2e4 x" + "é" * 30, "xx" + "€é" * 20 + " isready"]
         lines += rng.sample(["go wtime", "setoption name value", "setoption value x name y", "go depth", "go nodes -3", "position", "position startpos moves e2e5",
                              "setoption", "go movetime 99999999999999999999999999999999999999999", "position startpos moves"], 4)
         rng.shuffle(lines)
